@@ -121,7 +121,7 @@ def norm_panic(msg):
 
 
 def run(ctx):
-    depth = 3 if ctx.quick else 5
+    depth = int(os.environ.get("GV_C09_DEPTH", "0")) or (3 if ctx.quick else 5)      # the env override is a development knob
     seen_classes = {}
     viol = {}           # signature -> (history labels incl. the failing request, request lines, detail)
     counts = {"requests_checked": 0}
